@@ -38,7 +38,11 @@ SPEC = dict(
              'all tables of that shape. (5) DICTIONARIES ARE OUTPUT-BOUNDED, NOT INPUT-BOUNDED: a parse that returns makes exactly '
              '4*(entries+stops)-2 calls (entries = keys in the result, stops = edges ending in a pruned/library cell) and <= (1+B) times '
              'as many steps with the unary-label loop (B = max bits per cell) (c19_dict_output, c19_dict_total); always <= 2 calls per node '
-             'of the tree UNFOLDED from the root. The bag can be exponentially smaller than that tree: ~250 bytes whose 30 forks reference '
+             'of the tree UNFOLDED from the root; and, since deserialize_hml refuses a label longer than the remaining key ({n <= m} of '
+             'hashmap.tlb; repaired defect: the remaining key went negative, never met a leaf, and shared forks below were walked 2^depth '
+             'times for an empty result), the remaining key length is never negative, the recursion is at most key_length+1 deep on ANY '
+             'cell graph (even a cyclic node list) and makes <= 2^(key_length+2)-2 calls (c19_dict_depth_le_keylen, c19_dict_label_fits). '
+             'The bag can be exponentially smaller than the unfolded tree: ~250 bytes whose 30 forks reference '
              'the same child twice are a legitimate 2^30-entry dictionary, and over a pruned/exotic bottom cell the same 2^30 steps return an '
              'EMPTY result (stops = 2^30). For load_dict the sentence "a few-hundred-byte input cannot run long" therefore does NOT hold; the '
              'property is read as work <= c*(output entries + pruned edges) for dictionaries (not repaired: an eager dict-returning API '
@@ -46,9 +50,10 @@ SPEC = dict(
              'counted by sys.monitoring inside pytoniq_core during one call, constants calibrated once with ~4x slack, design/C19.md) on '
              'adversarial families (2-refs-to-same-child chains to length 1000, depth-1023 chains, level-3 cells, diamonds, huge count '
              'fields over short bodies, TL vectors declaring up to 2^32-1 elements, bytes re-parse towers, dictionaries with bogus labels '
-             'and maximal sharing) plus a 2 s wall-clock cap per call; also compared: cell order, len(to_boc), number of sha256 objects and '
+             'and maximal sharing, labels longer than the remaining key - every constructor, at the root and below forks, over 2^14 shared '
+             'paths: must be refused at once) plus a 2 s wall-clock cap per call; also compared: cell order, len(to_boc), number of sha256 objects and '
              'bytes hashed while constructing a DAG (= one per hashed level per DISTINCT cell), dictionary entries returned = entries '
-             'counted by the model, side conditions of c19_tl_total on every table sent to the driver. C-level costs (bytes slicing '
+             'counted by the model, a model parse that raises must raise in the library, side conditions of c19_tl_total on every table sent to the driver. C-level costs (bytes slicing '
              'cells_data[i:], hashing, bitarray) are visible only through the line-count proxy and the wall-clock cap. One piece of the TL '
              'model is tied to the source by proof rather than measurement: the vector-length guard added by fix 110bf4a '
              '(`length > len(data) - i`, Python ints) and the bytes-field header / skip arithmetic of TlSchemas.deserialize are re-translated from '
@@ -69,7 +74,7 @@ SPEC = dict(
     rule='one case = one public call on one adversarial input with its model step count; families: double/triple-ref chains 10..1000, '
          'depth-1023 chains, diamonds, wide sharing, random DAGs (order, to_boc x flag sets, from_boc, construction); BoC byte strings '
          'with huge cells_num/roots_num/index/size fields, truncations and byte mutations of valid bags; dictionaries (valid, bogus '
-         'label lengths, maximal sharing, exotic/short leaves); TL byte strings (valid-ish, truncated, vectors declaring up to 2^32-1, '
+         'label lengths, labels longer than the remaining key, maximal sharing, exotic/short leaves); TL byte strings (valid-ish, truncated, vectors declaring up to 2^32-1, '
          'bytes re-parse towers); distinct = distinct (op, input); non-trivial = model steps > 3',
     trusted_base=['Model/Cost.lean mirrors the loop structure of Cell.order/to_boc, Boc.deserialize(_boc_header/_cell), hashmap.parse, '
                   'TlSchemas.deserialize by hand (cost only, upper-bound convention)',
@@ -543,12 +548,17 @@ def fam_dict_shared(depth, key_len, bottom, label='short'):
 
 
 def fam_dict_bogus(rng, depth, key_len):
-    """label lengths larger than the remaining key: m goes negative and never returns to 0"""
+    """a chain (some forks shared) whose upper `good` edges carry empty labels and whose other labels announce arbitrary lengths,
+    mostly larger than the remaining key: since the {n <= m} repair the first such label raises (before it the remaining key went
+    negative and the parse walked on to the bottom of the bag)"""
+    good = rng.choice([0, 0, 1, 2, rng.randrange(0, max(1, min(depth, key_len)))])
     nodes = [('00', (), True)]
     for d in range(depth):
         mode = rng.randrange(3)
         over = rng.randrange(1, 40)
-        if mode == 0:
+        if depth - 1 - d < good:
+            lab = '00'
+        elif mode == 0:
             lab = '0' + '1' * over + '0' + '1' * over
         elif mode == 1:
             lab = '10' + format(over, f'0{max(key_len.bit_length(), 1)}b') + '0' * over
@@ -556,6 +566,28 @@ def fam_dict_bogus(rng, depth, key_len):
             lab = '111' + '1' * max(key_len.bit_length(), 1)
         kids = (d, d) if (depth <= 10 and rng.random() < 0.5) else (d,)     # shared forks unfold to 2^depth: keep them shallow
         nodes.append((lab, kids, True))
+    return nodes
+
+
+def over_label(kind, n, m):
+    """bit pattern of an `HmLabel` constructor announcing n bits although only m remain (n > m, n < 2^bit_length(m) for long/same:
+    a `#<= m` field with m = 2^k - 1 cannot announce more than m)"""
+    assert kind == 's' or m < n < (1 << m.bit_length()), (kind, n, m)
+    if kind == 's':
+        return '0' + '1' * n + '0' + '1' * n
+    if kind == 'l':
+        return '10' + format(n, f'0{max(m.bit_length(), 1)}b') + '1' * n
+    return '11' + '0' + format(n, f'0{max(m.bit_length(), 1)}b')
+
+
+def fam_dict_overlong(depth, key_len, kind, below):
+    """shared forks over an exotic bottom (as `shared-forks-pruned-bottom`) under an edge whose label is longer than the key
+    remaining there; below = 0: that edge is the root, below = j: it hangs (twice) under j ordinary forks with empty labels"""
+    nodes = fam_dict_shared(depth, key_len, 'exotic')
+    m = key_len - below
+    nodes.append((over_label(kind, m + 1, m), (depth, depth), True))
+    for j in range(below):
+        nodes.append(('00', (depth + 1 + j, depth + 1 + j), True))
     return nodes
 
 
@@ -600,35 +632,48 @@ def check_dict(ctx, nodes, key_len, tag):
                 ctx.corr_broken(f'dict model: {entries} entries (dictOut) but the library returned {len(m.result)} on {tag}')
         if res.startswith('done') and lib_raised and not isinstance(m.exc, RecursionError):
             ctx.count('dict:model-done-lib-raised')
+        if res.startswith('raised') and not lib_raised and root.type_ == -1:
+            ctx.count('dict:model-raised-lib-returned')
+            ctx.corr_broken(f'dict cost model: the model parse raises but HashMap.parse returned {_short_inp(m.result)} on {tag} (key length {key_len})')
     return m
 
 
 def dict_input_bound(ctx):
     """The property as WRITTEN for dictionaries: work bounded by the length of the input.  The library (and the model, which
-    mirrors it) unfold shared forks once per path, so three families break that reading - recorded in known_findings.json, one key
-    each; every other dictionary in this run is additionally held to the input bound (`dict-input-bound:other`)."""
+    mirrors it) unfold shared forks once per path, so two families break that reading - recorded in known_findings.json, one key
+    each; every other dictionary in this run is additionally held to the input bound (`dict-input-bound:other`).  A third family
+    (a label longer than the remaining key above shared forks) was repaired: such a label must be REFUSED AT ONCE
+    (c19_dict_depth_le_keylen, c10_label_too_long_rejected) - all three constructors, at the root and below forks."""
     from pytoniq_core.boc.hashmap.hashmap import HashMap
     depth = 14
-    over = ('11' + '0' + format(depth + 3, f'0{(depth + 2).bit_length()}b'), (depth, depth), True)     # hml_same of length depth+3 > remaining key depth+2
     fams = [('shared-forks-entries', fam_dict_shared(depth, depth + 2, 'leaf'), depth + 2,
-             f'a {depth + 1}-cell dictionary whose forks reference the same child twice, read with key length {depth + 2}: 2^{depth} genuine entries'),
+             f'a {depth + 1}-cell dictionary whose forks reference the same child twice, read with key length {depth + 2}: 2^{depth} genuine entries', False),
             ('shared-forks-pruned-bottom', fam_dict_shared(depth, depth + 2, 'exotic'), depth + 2,
-             f'the same forks over ONE non-ordinary (pruned / library) bottom cell: 2^{depth} visits, EMPTY result'),
-            ('shared-forks-label-longer-than-key', fam_dict_shared(depth, depth + 2, 'exotic') + [over], depth + 2,
-             f'a root label longer than the key (hml_same n = key length + 1): the remaining key length goes negative, never meets a leaf, '
-             f'2^{depth} visits, empty result - the label violates {{n <= m}} and should be refused at once')]
-    for key, nodes, key_len, what in fams:
+             f'the same forks over ONE non-ordinary (pruned / library) bottom cell: 2^{depth} visits, EMPTY result', False)]
+    for kind in 'msl':
+        for below in (0, 1, 2):
+            fams.append(('shared-forks-label-longer-than-key', fam_dict_overlong(depth, depth + 6, kind, below), depth + 6,
+                         f'a label longer than the remaining key ({dict(s="hml_short", l="hml_long", m="hml_same")[kind]}, {below} fork(s) below the '
+                         f'root, n = remaining key + 1) over 2^{depth} shared paths: the label violates {{n <= m}} and must be refused at once', True))
+    for key, nodes, key_len, what, must_raise in fams:
         cells = dd_build(nodes)
         root = cells[-1]
         nbytes = len(root.to_boc())
         lim = 400 * nbytes + 20000
         m = measure(lambda: HashMap.parse(root.begin_parse(), key_len), max_lines=lim, max_seconds=WALL_CAP)
-        ctx.case(('dict-input-bound', key), sample={'op': 'dict-input-bound', 'family': key, 'bytes': nbytes, 'lines': m.lines})
+        ctx.case(('dict-input-bound', key, dd_arg(nodes)), sample={'op': 'dict-input-bound', 'family': key, 'bytes': nbytes, 'lines': m.lines})
         ctx.count('dict-input-bound:' + key)
+        inp = {'dict': [list(n) for n in nodes], 'key_len': key_len, 'tag': 'input-bound:' + key, 'bytes': nbytes}
         if m.aborted or m.lines > lim:
-            ctx.fail('dict-input-bound:' + key, f'HashMap.parse does work exponential in the input size: {what}',
-                     {'dict': [list(n) for n in nodes], 'key_len': key_len, 'tag': 'input-bound:' + key, 'bytes': nbytes},
+            ctx.fail('dict-input-bound:' + key, f'HashMap.parse does work exponential in the input size: {what}', inp,
                      f'> {lim} lines ({m.lines} when stopped)', f'<= 400 lines per input byte + 20000 = {lim}')
+        elif must_raise and m.exc is None:
+            ctx.fail('dict-input-bound:' + key, f'HashMap.parse returned instead of refusing: {what}', inp,
+                     f'returned {_short_inp(m.result)} after {m.lines} lines', 'an exception at the over-long label')
+    # the same edges through the cost model and the measured tie (smaller unfoldings: a reverted repair costs 2^8 visits, not 2^14)
+    for kind in 'msl':
+        for below in (0, 1, 3):
+            check_dict(ctx, fam_dict_overlong(8, 12, kind, below), 12, f'overlong-{kind}-{below}')      # remaining 12, 11, 9
 
 
 def valid_dict_cell(rng, key_len, n):
@@ -1029,7 +1074,7 @@ def run(ctx):
         for bottom in ('leaf', 'exotic', 'short'):
             check_dict(ctx, fam_dict_shared(depth, depth + 3, bottom), depth + 3, f'shared{depth}-{bottom}')
         check_dict(ctx, fam_dict_shared(depth, depth, 'leaf'), depth, f'shared{depth}-exact')
-        check_dict(ctx, fam_dict_shared(depth, 2, 'leaf'), 2, f'shared{depth}-negative-m')
+        check_dict(ctx, fam_dict_shared(depth, 2, 'leaf'), 2, f'shared{depth}-key-ends-at-fork')
     for t in range(ctx.n(40, 400)):
         kl = rng.choice([1, 8, 32, 256])
         check_dict(ctx, fam_dict_bogus(rng, rng.choice([1, 5, 30, 200, 900]), kl), kl, f'bogus{t}')
